@@ -94,7 +94,10 @@ def gen_large(tier, seed):
 
 
 def suites(tier, seed):
-    return [Suite("bursts", "machine", lambda: mg.burst_cases(Rng(seed + 36)), monitor=monitor, nontrivial=lambda c, il: True, canon=mg.canon_nondet, shrink=False,
+    return [Suite("returns-vs-listener-states", "machine", lambda: __import__("props.c13", fromlist=["x"]).gen_matrix(tier, seed),
+                  monitor=monitor, nontrivial=lambda c, il: True, canon=mg.canon_nondet, candidate_ok=mg.candidate_ok, shards=4,
+                  rule="(the C13 listener matrix under the C03 monitor) one channel; return listener x confirm listener in {never set, live, receiver dropped, replaced} x blocked listener states x every sequence of 3 events from {returned message, ack, nack, blocked/unblocked}: every returned message reaches the return listener current at its completion, whatever happened to the other listeners"),
+            Suite("bursts", "machine", lambda: mg.burst_cases(Rng(seed + 36)), monitor=monitor, nontrivial=lambda c, il: True, canon=mg.canon_nondet, shrink=False,
                   rule="100 / 45 / 60 deliveries (0-3 body frames each) or one body in 300 frames, plus a reply for another channel at the very end, all readable in ONE wake-up (one read of everything, or reads of 997 / 4096 bytes back to back): every message delivered in that wake-up"),
             Suite("listener-mid-content", "machine", lambda: mg.listener_mid_content_cases(Rng(seed + 35)), monitor=monitor, nontrivial=lambda c, il: True, canon=mg.canon_nondet, candidate_ok=mg.candidate_ok, exhaustive=True,
                   rule="a listener registered or replaced between two frames of one content on the same channel: reassembly is not disturbed"),
